@@ -37,6 +37,88 @@ CHECKS = {
         "reused under the linking URL's policy). pquerna/cachecontrol and http.NewRequest are recorded oracles. Hook: loaders/verif_hooks_c19.go (025b116).",
    technique="Coq proof by induction over histories of an executable loader/cache model + per-run model/implementation differential on the real loader (vm_compute)",
    design="5 C19"),
+ "C01": dict(
+   text="Theorems (Properties/C01.v, 21, all closed) over the executable model of EntriesFromRDF for EVERY RDF dataset with unique graph names (any size, graph order, prime, float oracle): "
+        "C01_entries_exact (an Ok result is, one for one and in sorted-graph order, exactly the literal/IRI-valued quads, each under its ancestor path + predicate + value index with the value "
+        "converted per datatype: nothing dropped, duplicated, merged or invented), C01_indices_value / C01_indices_child (indices exactly 0..m-1 when a group / parent key has more than one member, "
+        "absent otherwise), C01_shared_rejected / C01_shared_graph_rejected / C01_cycle_rejected / C01_self_reference_rejected / C01_blank_leaf_rejected (such datasets are never Ok), "
+        "C01_terminates (fuel > #quads never diverges), C01_leaves / C01_leaves_distinct_paths (one tree leaf per entry, pairwise distinct keys; via SMT/ and Merklizer/). "
+        "Per run the model is evaluated in Coq on ~500 datasets (json-gold output of generated documents incl. named graphs, shared nodes, cycles, duplicate paths; hand-built raw datasets json-gold never emits) "
+        "under three hashers and compared with EntriesFromRDFWithHasher / MerklizeJSONLD (entries, leaf accounting: #value quads = #leaves = #entries).",
+   note="JSON-LD expansion and URDNA2015 (json-gold) are not modelled: the theorems are about datasets; the document-level leg (generator's expected facts vs entries modulo sibling renumbering) is differential.",
+   technique="Coq proof (refinement of an executable model to a relational spec, for all datasets) + per-run model/implementation differential (vm_compute)",
+   design="5 C01, Appendix A"),
+ "C02": dict(
+   text="Theorems (Properties/C02.v, all closed) over Merklizer/Model.v + SMT/: for every entry list / dataset, hashers and tree parameters: C02_member (every entry gets an existence proof plus a Value "
+        "holding its value, verifying against Root(); for merkletree.VerifyProof with its argument checks under range facts only - no injectivity or collision-freeness assumed), C02_nonmember "
+        "(non-member key => verifying non-existence proof, no Value), C02_entry_iff (Entry <=> JSONLDType <=> existence), C02_value_iff_existence, C02_entries_stored, and C02_shared_member / "
+        "C02_shared_nonmember for a CALLER-PROVIDED tree modelled as script state (after any history of other documents / direct Adds every earlier merklizer still proves its entries against the live Root()). "
+        "Per run: every member path and six non-member families of every generated merklizer, shared-tree scenarios, compared on existence flag, siblings, aux node, value kind/hash, VerifyProof, "
+        "Entry / JSONLDType; the auxiliary SMT driver compares the tree model with go-merkletree-sql (adds, proofs, 16 kinds of tampering).",
+   note="Input of the model is the normalised dataset / the entries read through the hook merklize/verif_hooks.go; json-gold is not modelled. go-merkletree-sql is modelled (SMT/Model.v) and validated differentially, not verified.",
+   technique="Coq proof (SMT completeness + entries-map/tree bijection invariant, shared tree as script state) + per-run model/implementation differential (vm_compute)",
+   design="5 C02, 4.2"),
+ "C16": dict(
+   text="NON-INTERFERENCE theorems (Properties/C16.v, all closed): C16_noninterference - for every dataset, configured hasher Hc, script over {merklize, proof, entry/path/value via the merklizer's "
+        "Options, root} and every pair of default-hasher STREAMS D, D' (a different package default at every call, so SetHasher interleavings are covered) the observations are identical; "
+        "C16_noninterference_shared_tree (whole histories on a shared tree), C16_merklize_independent, C16_stored_hashes (every stored key/value hash is produced by Hc), C16_prime (integer ranges follow prime Hc). "
+        "Per run: 7 hashers (default, salted HashBytes, wrapped Hash, both, small primes) x documents x derived objects incl. restore-from-bytes, with a COUNTING default hasher installed by SetHasher "
+        "that must never be called, and integer-boundary documents per prime; model evaluated in Coq on the same scripts with recorded primitive hash tables.",
+   note="Resolver-made paths: the model claims only which hasher they store (checked differentially). The pre-72b544a defect D7 is kept as a regression Example.",
+   technique="Coq proof (non-interference of the default hasher, two-hasher parametric model) + per-run model/implementation differential with a counting default hasher",
+   design="5 C16"),
+ "C07": dict(
+   text="Theorems (Properties/C07.v, all closed, no hypothesis on any external function for soundness): C07_sound / C07_decision - verify_bjj b = Ok iff the property's conjunction holds exactly "
+        "(signature valid for Poseidon[hi,hv] under the auth-claim key; existence proof carries the auth claim to claimsTreeRoot; Poseidon[ctr,rtr,ror] = state; published or genesis of the DID; "
+        "status nonce = auth nonce; status validates non-revoked), including behaviour on absent members; C07_complete (honest issuance model verifies; hypotheses: signature correctness, hash outputs are "
+        "field elements, trees reachable by Add, honest resolvers, status nonce survives the JSON float64 round trip), C07_complete_refuted_json_number (D22), C07_auth_claim_in_issuers_tree and "
+        "C07_not_revoked_in_tree (modulo an explicit Collision witness, via SMT soundness), C07_total. Per run ~870 bundles: synthetic issuers (keys, trees, genesis/later states, nonces up to 2^64) "
+        "through the public VerifyProof with ONE FAULT AT A TIME (~95 faults); accept/reject/panic compared with the model evaluated in Coq on recorded primitive tables, plus an independent impl-side "
+        "evaluation of the property's conjunction.",
+   note="Poseidon, BabyJubJub, DID parsing, IDFromDID, CheckGenesisStateID and the encoding/json number round trip are recorded tables of primitive calls; the claim/credential binding check is C06's. "
+        "Known finding D22 (honest nonce not float64-exact rejected).",
+   technique="Coq proof of an exact decision characterisation + completeness over an issuance model (abstract crypto) + per-run single-fault differential through VerifyProof",
+   design="5 C07"),
+ "C08": dict(
+   text="Theorems (Properties/C08.v, all closed): C08_sound / C08_decision (verify_smt = Ok iff the MTP is an EXISTENCE proof carrying (hi,hv) to claimsTreeRoot, Poseidon[ctr,rtr,ror] = state, "
+        "state published or genesis; exact on absent members), C08_complete (every claim inserted in the synthetic claims tree verifies with the proof gen produces, via SMT.mt_completeness), "
+        "C08_never_issued (for a well-formed tree without (hi,hv) no bundle naming that honest state verifies, or an explicit Collision is exhibited), C08_total, C08_verify_proof (dispatch). "
+        "Per run ~650 bundles with one fault at a time (~65 faults: existence flag, each sibling, aux node, claim, each root, state, DID, resolver answer, optional members) through VerifyProof, compared with the model in Coq.",
+   note="Same recorded primitives as C07; go-merkletree-sql modelled in SMT/ (validated differentially).",
+   technique="Coq proof of an exact decision characterisation + completeness/never-issued via SMT theorems + per-run single-fault differential through VerifyProof",
+   design="5 C08"),
+ "C09": dict(
+   text="Theorems (Properties/C09.v, 19, all closed; poseidon arbitrary): C09_decision_ok / _revoked / _other (validate_status = Ok iff resolved, tree state consistent, proof verifies for (nonce,0) "
+        "against the revocation root and shows non-existence; Err revoked iff the same with existence; every other outcome a different error, never a panic), C09_tree_state (missing roots mean zero), "
+        "C09_real_tree (for EVERY well-formed revocation tree and the honest answer built by gen: Ok iff nonce not in keys, revoked iff in keys), C09_sound / C09_sound_state (adversarial answers, modulo an "
+        "explicit Collision witness), C09_http / C09_http_boundary (answer iff 200<=code<300, body < 16384 bytes - 16383 accepted, 16384 refused - and parses), C09_direct, C09_registry_*, C09_coerce. "
+        "Per run ~5000 cases: real go-merkletree-sql revocation trees (0..300 nonces, clustered), members / near-misses / non-members, one fault at a time in the answer, HTTP stub (7 codes x sizes around the limit x malformed), "
+        "registry histories; compared with the model in Coq.",
+   note="json.Unmarshal of a status body and net/http transport behaviour are recorded oracles; hook verifiable/verif_hooks_c09.go (4a2704c).",
+   technique="Coq proof of an exact decision table + real-tree iff via SMT completeness/soundness + per-run single-fault differential",
+   design="5 C09"),
+ "C18": dict(
+   text="A VERIFIED REFERENCE VALIDATOR in Coq (Schema/): declarative relation Valid per keyword of the structural vocabulary for draft-07 and 2020-12 and an executable validate with fuel; theorems "
+        "(Properties/C18.v, 40, all closed): C18_decides_bounded (for schemas whose $ref chains end within the fuel: validate = Some true <-> Valid, Some false <-> ~Valid), C18_decides / C18_sound / "
+        "C18_complete (any definite verdict is exact, for all schemas incl. recursive ones; Valid <-> exists fuel, validate = Some true), C18_glue_exact / C18_fuel_adequate / C18_glue_total (the model of "
+        "validator.go returns Ok iff Valid; errors for malformed schema/data text, non-object data, uncompilable schema), C18_unknown_members_ignored ($metadata), draft-specific $ref-sibling laws, "
+        "C18_history_independent. PARTIAL: agreement of santhosh-tekuri/jsonschema with Valid is differential: per run ~1900 (schema, instance) pairs (generated schemas with conforming and one-violation "
+        "instances, defective schemas, ~840 cases transcribed from the JSON-Schema test suite style, call histories sharing $id) are evaluated by the Coq validator and compared with ValidateData's verdict.",
+   note="JSON text syntax, duplicate keys, keywords and regex syntax outside the subset are not modelled (the model answers 'unsupported'). Known findings D16 (float64 decoding), D17 (enum [] in the dependency).",
+   technique="Coq proof (verified reference validator: executable = declarative semantics) + per-run differential against the library through ValidateData",
+   design="5 C18"),
+ "C15": dict(
+   text="Theorems (Properties/C15.v, 20, all closed) over a model of json-gold's context processing as far as it decides the fate of an object key (Context.parse, createTermDefinition, ExpandIri for keys, "
+        "property-/type-scoped and embedded contexts with reverting, the expandObject walk with its drop/reject decision and the swallowed error under @set/@list/@default) and of the option plumbing of "
+        "all public entry points, for EVERY document loader behaviour (Normalize phase and Compact phase views): C15_safe (safe-mode Ok => every member anywhere - top level, nested, array items, @graph - "
+        "has a keyword or absolute-IRI key; stated in full under a hypothesis excluding exactly the shapes of the known findings D26/D27), C15_safe_rejects(_err), C15_safe_load_failure (a failing "
+        "Compact-phase context load is never Ok), C15_unsafe (unsafe result = result on strip_undefined d), C15_strip_is_removal, C15_default / C15_plumbing / C15_options_mode (default is safe; "
+        "MerklizeJSONLD, W3CCredential.Merklize, ToCoreClaim, VerifyProof forward the caller's mode for every loader configuration incl. a nil default loader), C15_normalize_ignores_mode. "
+        "PARTIAL: expansion result, ToRDF, URDNA2015 and compaction are an abstract backend quantified in every theorem. Per run ~180 (context, document) pairs with 0-3 undefined members of 15 kinds injected "
+        "at 5 kinds of site plus defined look-alikes, both modes, 5 option lists, scripted flaky loaders, nil default loader; accept/reject, root, stripped document and dropped paths compared with the model in Coq.",
+   note="json-gold's context processing and key classification are modelled for the generated subset (@reverse term definitions, @import, container maps with object values: 'unsupported'). Known findings D26, D27, D28 (dependency).",
+   technique="Coq proof over a subset model of JSON-LD key expansion + option plumbing (abstract backend) + per-run model/implementation differential",
+   design="5 C15"),
  "C04": dict(
    text="Theorems (Properties/C04.v) over the executable model of the value-encoding code, for every hasher, lexical form and odd modulus p>=3: "
         "integer types accepted exactly in range and encoded as v / p+v without reduction, injective per type, spelling-independent; booleans; "
@@ -78,7 +160,7 @@ def main():
             "guard": "verif",
             "enable": "go build -tags verif (harness module /verif/harness with replace => /repo)",
             "baseline_off_cmd": "python3 /verif/engine/baseline.py",
-            "source_commits": ["9e3fb9e", "2ae4494", "025b116"],
+            "source_commits": ["9e3fb9e", "2ae4494", "025b116", "4a2704c", "3c277b5"],
             "add_only": True,
         },
         "engines": [{"name": "coq-proof+correspondence", "path": "/verif/check",
